@@ -47,6 +47,23 @@ type Result struct {
 	Harness string              `json:"harness,omitempty"` // harness trouble (never a violation)
 }
 
+// Summary is the last line a worker writes: aggregated coverage of its runs.
+type Summary struct {
+	Summary       bool           `json:"summary"`
+	Prop          string         `json:"prop"`
+	Runs          int            `json:"runs"`
+	Steps         int64          `json:"steps"`
+	SimMs         int64          `json:"sim_ms"`
+	Faults        map[string]int `json:"faults"`
+	Probes        map[string]int `json:"probes"`
+	FPs           []string       `json:"fps"`
+	NontrivialFPs []string       `json:"nontrivial_fps"`
+	Configs       int            `json:"configs"`
+	CfgHashes     []string       `json:"cfg_hashes"`
+	LastSeed      uint64         `json:"last_seed"`
+	Frozen        int            `json:"frozen"`
+}
+
 // ReplayFile is what the driver writes for a violation and what -sim.replay reads.
 type ReplayFile struct {
 	Prop   string              `json:"prop"`
@@ -68,6 +85,7 @@ var (
 	fWatchdog = flag.Int("sim.watchdog", 120, "real seconds per run before declaring a hang")
 	fBudget   = flag.Float64("sim.budget", 0, "stop starting new runs after this many real seconds")
 	fMaxLeak  = flag.Int("sim.maxleak", 40, "recycle the worker after this many frozen bubbles")
+	fNontriv  = flag.Int("sim.nontrivial", 10, "a run with at least this many steps counts as non-trivial")
 )
 
 var freezeMu sync.Mutex
@@ -135,6 +153,24 @@ func WorkerMain(t *testing.T, rigs map[string]Rig) {
 	t0 := time.Now()
 	frozen := 0
 	seenSig := map[string]int{}
+	sum := &Summary{Summary: true, Prop: *fProp, Faults: map[string]int{}, Probes: map[string]int{}}
+	fps, ntfps, cfgs := map[string]bool{}, map[string]bool{}, map[string]bool{}
+	finish := func() {
+		for k := range fps {
+			sum.FPs = append(sum.FPs, k)
+		}
+		for k := range ntfps {
+			sum.NontrivialFPs = append(sum.NontrivialFPs, k)
+		}
+		sum.Configs = len(cfgs)
+		for k := range cfgs {
+			sum.CfgHashes = append(sum.CfgHashes, k)
+		}
+		b, _ := json.Marshal(sum)
+		w.Write(b)
+		w.WriteByte('\n')
+		w.Flush()
+	}
 	for s := a; s < b; s++ {
 		if *fBudget > 0 && time.Since(t0).Seconds() > *fBudget {
 			break
@@ -154,21 +190,41 @@ func WorkerMain(t *testing.T, rigs map[string]Rig) {
 				r.Tape = nil
 			}
 		}
-		emit(r)
+		if r.Harness == "" {
+			sum.Runs++
+			sum.Steps += int64(r.Steps)
+			sum.SimMs += r.SimMs
+			for k, v := range r.Faults {
+				sum.Faults[k] += v
+			}
+			for k, v := range r.Probes {
+				sum.Probes[k] += v
+			}
+			fps[r.FP] = true
+			if r.Steps >= *fNontriv {
+				ntfps[r.FP] = true
+			}
+			pb, _ := json.Marshal(r.Params)
+			cfgs[fmt.Sprintf("%016x", hash64(0, string(pb)))] = true
+			sum.LastSeed = s
+		}
+		if *fLog || len(r.Viol) > 0 || r.Harness != "" || sum.Runs <= 3 {
+			emit(r)
+		}
 		if r.Harness != "" {
-			w.Flush()
+			finish()
 			os.Exit(2)
 		}
 		if r.Leaked > 0 {
 			frozen++
+			sum.Frozen++
 			if frozen >= *fMaxLeak {
-				// recycle: tell the driver where we stopped
-				emit(&Result{Prop: *fProp, Rig: rig.Name, Harness: "", Seed: s, Params: map[string]any{"recycle_next": s + 1}})
-				w.Flush()
-				os.Exit(3)
+				finish()
+				os.Exit(3) // recycle: the driver restarts after LastSeed
 			}
 		}
 	}
+	finish()
 }
 
 func runOne(t *testing.T, rig Rig, prop, tier string, tape *Tape, withLog bool) *Result {
@@ -176,7 +232,10 @@ func runOne(t *testing.T, rig Rig, prop, tier string, tape *Tape, withLog bool) 
 	wall0 := time.Now()
 	body := func() {
 		c := NewCtl(tape, prop, tier)
-		base := runtime.NumGoroutine()
+		base := 0
+		if !rig.NoBubble {
+			base = bubbleGoroutines()
+		}
 		var harness string
 		func() {
 			defer func() {
@@ -189,7 +248,7 @@ func runOne(t *testing.T, rig Rig, prop, tier string, tape *Tape, withLog bool) 
 		leaked := 0
 		if !rig.NoBubble {
 			synctest.Wait()
-			leaked = runtime.NumGoroutine() - base
+			leaked = bubbleGoroutines() - base
 		}
 		res := &Result{Seed: tape.Seed, Prop: prop, Rig: rig.Name, Tier: tier, Viol: c.Viol, Steps: c.Step,
 			SimMs: int64(c.Now() / time.Millisecond), Faults: c.Faults, Probes: c.Probes, FP: c.Fingerprint(),
@@ -230,4 +289,33 @@ func runOne(t *testing.T, rig Rig, prop, tier string, tape *Tape, withLog bool) 
 		return &Result{Seed: tape.Seed, Prop: prop, Rig: rig.Name, Tape: tape.Recorded(),
 			Harness: "watchdog: run did not finish\n" + string(buf[:n])}
 	}
+}
+
+// bubbleGoroutines counts the goroutines of the calling goroutine's synctest
+// bubble (itself included) from a full stack dump. runtime.NumGoroutine is
+// not usable for this: it also counts goroutines of frozen bubbles and ones
+// that are just exiting.
+func bubbleGoroutines() int {
+	buf := make([]byte, 1<<20)
+	for {
+		n := runtime.Stack(buf, true)
+		if n < len(buf) {
+			buf = buf[:n]
+			break
+		}
+		buf = make([]byte, 2*len(buf))
+	}
+	s := string(buf)
+	// first header is the current goroutine: "goroutine 7 [running, synctest bubble 3]:"
+	i := strings.Index(s, "synctest bubble ")
+	nl := strings.IndexByte(s, '\n')
+	if i < 0 || i > nl {
+		return 1
+	}
+	j := i
+	for j < len(s) && s[j] != ']' {
+		j++
+	}
+	tag := s[i:j] + "]:"
+	return strings.Count(s, tag)
 }
